@@ -83,21 +83,44 @@ theorem eval_gintE (ρ : Nat → ℝ) (xs : List Expr) (ws : Option (List Expr))
     rw [this]
     simp only [Nat.cast_ofNat]
 
+/-- the squared first differences `[/ w]` as expressions -/
+def sqE (xs : List Expr) (ws : Option (List Expr)) : List Expr :=
+  match ws with
+  | none => (diffsRevE xs).map fun d => mul d d
+  | some w => List.zipWith div ((diffsRevE xs).map fun d => mul d d) w
+
+/-- value of the argument of the logarithm -/
+theorem eval_gint_arg (ρ : Nat → ℝ) (xs : List Expr) (ws : Option (List Expr)) (b : Expr) :
+    eval ρ (add (div (sumL (sqE xs ws)) (nat 2)) b)
+      = (match ws.map (fun (w : List Expr) => w.map (eval ρ)) with
+          | none => (diffsRev (xs.map (eval ρ))).map fun d => d * d
+          | some w => List.zipWith (fun a b => a / b) ((diffsRev (xs.map (eval ρ))).map fun d => d * d) w).sum / 2
+        + eval ρ b := by
+  cases ws with
+  | none =>
+    simp only [sqE, eval, eval_sumL_real, Option.map_none]
+    rw [map_eval_sq]
+    simp only [Nat.cast_ofNat]
+  | some w =>
+    simp only [sqE, eval, eval_sumL_real, Option.map_some]
+    have : (List.zipWith div ((diffsRevE xs).map fun d => mul d d) w).map (eval ρ)
+        = List.zipWith (fun a b => a / b) ((diffsRev (xs.map (eval ρ))).map fun d => d * d) (w.map (eval ρ)) := by
+      rw [List.map_zipWith, ← map_eval_sq, List.zipWith_map]
+      rfl
+    rw [this]
+    simp only [Nat.cast_ofNat]
+
 theorem defined_gintE (ρ : Nat → ℝ) (xs : List Expr) (ws : Option (List Expr)) (c a b lgA lgAd : Expr)
     (hx : ∀ e ∈ xs, Defined ρ e) (hc : Defined ρ c) (ha : Defined ρ a) (hb : Defined ρ b) (hb0 : eval ρ b ≠ 0)
     (hlA : Defined ρ lgA) (hlAd : Defined ρ lgAd)
     (hw : ∀ w, ws = some w → ∀ e ∈ w, Defined ρ e ∧ eval ρ e ≠ 0)
-    (harg : eval ρ (add (div (sumL (match ws with
-        | none => (diffsRevE xs).map fun d => mul d d
-        | some w => List.zipWith div ((diffsRevE xs).map fun d => mul d d) w)) (nat 2)) b) ≠ 0) :
+    (harg : eval ρ (add (div (sumL (sqE xs ws)) (nat 2)) b) ≠ 0) :
     Defined ρ (gintE xs ws c a b lgA lgAd) := by
   have hsq : ∀ e ∈ (diffsRevE xs).map (fun d => mul d d), Defined ρ e := by
     intro e he
     obtain ⟨d, hd, rfl⟩ := List.mem_map.mp he
     exact ⟨defined_diffsRevE ρ xs hx d hd, defined_diffsRevE ρ xs hx d hd⟩
-  have hsum : Defined ρ (sumL (match ws with
-        | none => (diffsRevE xs).map fun d => mul d d
-        | some w => List.zipWith div ((diffsRevE xs).map fun d => mul d d) w)) := by
+  have hsum : Defined ρ (sumL (sqE xs ws)) := by
     cases ws with
     | none => exact (defined_sumL _ _).2 hsq
     | some w =>
